@@ -11,13 +11,13 @@ Local Open Scope N_scope.
 
 Definition xp_c1 (par_req : bool) : client :=
   mkClient 1 false [GAuthorizationCode; GRefreshToken] ["code"]
-    ["https://c1.example/cb"] "openid email" CibaNone par_req false false false false false false 0 false.
+    ["https://c1.example/cb"] "openid email" CibaNone par_req false false false false false false 0 false None.
 Definition xp_c2 : client :=
   mkClient 2 false [GAuthorizationCode; GRefreshToken] ["code"]
-    ["https://c2.example/cb"] "openid email" CibaNone false false false false false false false 0 false.
+    ["https://c2.example/cb"] "openid email" CibaNone false false false false false false false 0 false None.
 Definition xp_params (uri : id) (redirect : string) : params :=
-  mkParams uri redirect "" "code" "openid" "st" "n-1" PkEmpty "" 0 "" 0 "" [].
-Definition xp_pol := PolSuccess "alice" "openid" [].
+  mkParams uri redirect "" "code" "openid" "st" "n-1" PkEmpty "" 0 "" 0 "" [] None.
+Definition xp_pol := PolSuccess "alice" "openid" [] [].
 Definition xp_plain : gop := GAuthorize (mkJAReq (mkAReq 1 (xp_params 0 "https://c1.example/cb") true xp_pol) JNone).
 Definition xp_value : gop :=
   GAuthorize (mkJAReq (mkAReq 1 (xp_params 0 "") true xp_pol) (JValue (xj_obj (xp_params 0 "https://c1.example/cb")))).
@@ -53,13 +53,13 @@ Proof. vm_compute. reflexivity. Qed.
 
 (* ---- /bc-authorize ---- *)
 Definition xb_c5 : client :=
-  mkClient 5 false [GCiba; GRefreshToken] [] [] "openid email" CibaPoll false false false false false false false 0 false.
+  mkClient 5 false [GCiba; GRefreshToken] [] [] "openid email" CibaPoll false false false false false false false 0 false None.
 Definition xb_jx (jar_alg ciba_alg : option sigalg) : jworld :=
   mkJWorld (mkJCfg [AES256] false [AES256] 0) [(5, mkJClient [mkJwk 615 AES256 515] jar_alg ciba_alg)].
-Definition xb_params : params := mkParams 0 "" "" "" "openid" "" "" PkEmpty "" 0 "alice@example" 0 "" [].
+Definition xb_params : params := mkParams 0 "" "" "" "openid" "" "" PkEmpty "" 0 "alice@example" 0 "" [] None.
 Definition xb_obj : req_object :=
   mkRO EncNone (SigBy 515) AES256 615 5 [AudIssuer] (Some 300%Z) (Some (-10)%Z) (Some (-10)%Z) true 5 false false xb_params.
-Definition xb_req : breq := mkBReq (mkCred 5 true) xb_params no_bind true "alice" "openid" [].
+Definition xb_req : breq := mkBReq (mkCred 5 true) xb_params no_bind true "alice" "openid" [] [].
 Definition xb_run (opts : list opt) (jar_alg ciba_alg : option sigalg) : option (list bool) :=
   option_map (fun cfg => map (fun xs => obs_obtains (fst xs))
                 (run_gj (mkWorld cfg [xb_c5]) (xb_jx jar_alg ciba_alg) [] [GBc xb_req None; GBc xb_req (Some xb_obj)]))
